@@ -201,6 +201,10 @@ def gen_sq_case(rng, big=False, kind=None):
     else:
         c["numofq"] = rng.randint(2, 9 if d == 2 else 6)
         c["onlypos"] = rng.choice([False, False, True])
+    # dtype of the wave-vector table handed to the real code (integer-valued in every dtype) and whether the SAME table object
+    # has already been used for an earlier call in this process (a call history: the judged call is the second one)
+    c["qdtype"] = rng.choice(["int32", "int64", "float64", "float64"])
+    c["reuse"] = rng.random() < 0.5
     return c
 
 
@@ -288,7 +292,9 @@ def real_sq(c, cond=None):
     """-> (per-vector frame columns, {col: values}, averaged {q: Sq} as list of pairs)"""
     from PyMatterSim.static.sq import conditional_sq
     cond = cond or c["cond"]
-    qv = np.array(vectors_of(c), dtype=np.int32).reshape(-1, c["d"])
+    qv = np.array(vectors_of(c), dtype=np.dtype(c.get("qdtype", "int32"))).reshape(-1, c["d"])
+    if c.get("reuse"):
+        conditional_sq(snapshot_of(c), qv, np.ones(c["N"]))       # earlier call with the same table object
     full, ave = conditional_sq(snapshot_of(c), qv, np_condition(cond, c["d"]))
     cols = [str(x) for x in full.columns]
     return cols, {col: list(full[col].values) for col in cols}, [(float(a), float(b)) for a, b in zip(ave["q"].values, ave["Sq"].values)]
@@ -754,6 +760,7 @@ def run_cases(run, cases, record=True):
                     run.hist(nm, v)
             else:
                 run.hist("vectors", "list" if "vec" in c else "default")
+                run.hist("qvector_table", c.get("qdtype", "int32") + (":reused" if c.get("reuse") else ":fresh"))
         if c["op"] == "gr":
             parsed = parse_gr(o)
             if parsed["margin"] < MU:
